@@ -49,7 +49,7 @@ ASSUMPTIONS = [
     'poisson_cv data are non-negative',
 ]
 TOL = 1e-9
-TOL_SCALED = 1e-7      # scale family: relative to the largest entry of the RDM
+TOL_SCALED = 1e-9      # scale family: relative to the largest entry of the RDM
 TOLERANCES = {'value vs definition': TOL, 'scaled data/precisions, relative to max|RDM|': TOL_SCALED, 'invariance': TOL, 'second difference (linearity)': TOL,
               'fold ignored: change below': 1e-12}
 BOUNDS = {
